@@ -151,6 +151,9 @@ func (h volumesResourceHandler) ResolveFilter(
 		}
 		return fmt.Sprintf("first_usage %s ?", common.ConvertOperatorToSQL(operator)), []any{value}, nil
 	case balanceRegex.MatchString(property) || property == "balance":
+		if operator == queries.OperatorExists {
+			return "", nil, common.NewErrInvalidQuery("operator '%s' is not supported for property '%s'", operator, property)
+		}
 		clauses := make([]string, 0)
 		args := make([]any, 0)
 
